@@ -63,7 +63,9 @@ type Named map[string]string
 
 type Z int
 `,
-		"q/q.go": `package q
+		"q/q.go": `// Package q switches the generator n1 off for itself through a package-level tag (later packages keep it).
+// +gengo:n1=false
+package q
 
 // A has the same name as p.A.
 type A struct {
